@@ -71,6 +71,10 @@ def gen_unit(ctx, ty):
     for sec, pool in USER_SECS.items():
         if rnd.random() < 0.6:
             blocks.append(['[' + sec + ']'] + [rnd.choice(pool) for _ in range(rnd.randint(1, 4))])
+    if rnd.random() < 0.2:
+        # the user's own choice of service type, made twice (as a drop-in would): the last one is the effective one
+        blocks.append(['[Service]'] + rnd.choice([['Type=notify', 'NotifyAccess=main', 'Type=oneshot'], ['Type=oneshot', 'Type=notify'], ['Type=notify', 'Type=', 'Type=oneshot'],
+                                                  ['Type=simple', 'NotifyAccess=exec', 'Type=oneshot'], ['KillMode=none', 'KillMode=mixed']]))
     if rnd.random() < 0.3:
         blocks.append(['[X-' + G.SEC[ty] + ']', 'Mine=1', 'Image=other'])
     if rnd.random() < 0.3:
@@ -186,6 +190,8 @@ def oracle(ctx):
                 fails.append(f'{k}={last(us, k)} was overwritten: {last(svc, k)}')
         if ty in ('container', 'kube') and last(us, 'Type') == 'oneshot' and last(svc, 'Type') != 'oneshot':
             fails.append(f'Type=oneshot was overwritten: {last(svc, "Type")}')
+        if ty in ('container', 'kube') and last(us, 'Type') == 'oneshot' and last(us, 'NotifyAccess') not in (None, '') and last(svc, 'NotifyAccess') != last(us, 'NotifyAccess'):
+            fails.append(f'NotifyAccess={last(us, "NotifyAccess")} of a oneshot service was overwritten: {last(svc, "NotifyAccess")}')
         if last(us, 'WorkingDirectory') not in (None, '') and last(svc, 'WorkingDirectory') != last(us, 'WorkingDirectory'):
             fails.append(f'WorkingDirectory={last(us, "WorkingDirectory")} was overwritten: {last(svc, "WorkingDirectory")}')
         for f in fails:
